@@ -562,6 +562,62 @@ BTree_ShouldSuppressKeyError()
     return 0;
 }
 
+/* Deferred release.
+ *
+ * Deleting or replacing an entry releases a key / value object, and that
+ * may run arbitrary code (a finalizer, a weakref callback) which looks at -
+ * or changes - the very tree the entry is being removed from.  While a tree
+ * operation is unwinding, the tree is not consistent yet (the leaf may be
+ * empty and still linked, node keys may be stale) and every frame of the
+ * recursion holds raw pointers into its nodes.  So objects removed inside a
+ * tree operation are parked here and released when the OUTERMOST tree
+ * operation has finished its work.
+ */
+static int tree_op_depth = 0;
+static PyObject *tree_op_dead = NULL;   /* list of parked objects, or NULL */
+
+/* Release `o` (a reference we own; NULL is allowed), later if a tree
+ * operation is in progress, else now. */
+static void
+release_after_tree_op(PyObject *o)
+{
+    if (o == NULL)
+        return;
+    if (tree_op_depth > 0)
+    {
+        if (tree_op_dead == NULL)
+            tree_op_dead = PyList_New(0);
+        if (tree_op_dead != NULL && PyList_Append(tree_op_dead, o) == 0)
+        {
+            Py_DECREF(o);   /* the list holds it now */
+            return;
+        }
+        /* no memory for the list: release now, keeping the error state of
+         * the operation in progress */
+        {
+            PyObject *et, *ev, *tb;
+            PyErr_Fetch(&et, &ev, &tb);
+            Py_DECREF(o);
+            PyErr_Restore(et, ev, tb);
+        }
+        return;
+    }
+    Py_DECREF(o);
+}
+
+#define TREE_OP_ENTER() (tree_op_depth++)
+
+static void
+tree_op_leave(void)
+{
+    if (--tree_op_depth == 0 && tree_op_dead != NULL)
+    {
+        PyObject *dead = tree_op_dead;
+        tree_op_dead = NULL;
+        Py_DECREF(dead);
+    }
+}
+
 #include "BTreeItemsTemplate.c"
 #include "BucketTemplate.c"
 #include "SetTemplate.c"
